@@ -203,6 +203,8 @@ Proof.
   destruct e; simpl in Hin;
     try (exfalso; eapply Hs; [|exact Hin]; first
       [ apply shrinks_refl | apply same_tree_shrinks, same_tree_tell_server
+      | eapply shrinks_trans; [|apply shrinks_advertise]; intros x H; exact H
+      | destruct session_init_readvertises; [eapply shrinks_trans; [|apply shrinks_advertise]; intros x H; exact H | apply same_tree_shrinks, same_tree_tell_server]
       | apply shrinks_close_peer | apply shrinks_reset
       | unfold on_branch_level; destruct (registered _ _ && live _ _); [eapply shrinks_trans; [|apply shrinks_after_announce]; intros x H; exact H | apply shrinks_refl]
       | unfold release; eapply shrinks_trans; [|apply shrinks_fold_run_cont]; intros x H; exact H
@@ -321,7 +323,7 @@ Proof.
     + destruct (held (tell_server (set_parent None s))).
       * unfold push. cbn. destruct (same_tree_tell_server (set_parent None s)) as (_ & E1 & _). rewrite E1. cbn. discriminate.
       * unfold finish_close. cbn.
-        destruct (same_tree_tell_children (0, me) (tell_server (set_parent None s))) as (_ & E1 & _).
+        destruct (same_tree_tell_children (unset_children_level, me) (tell_server (set_parent None s))) as (_ & E1 & _).
         destruct (same_tree_tell_server (set_parent None s)) as (_ & E2 & _). rewrite E1, E2. cbn. discriminate.
     + unfold finish_close. cbn. discriminate.
   - unfold finish_close. cbn. tauto.
@@ -441,6 +443,7 @@ Proof.
   assert (Hch : children (set_outs [] s0) = children s0) by reflexivity.
   unfold step. set (s := set_outs [] s0) in *. destruct e.
   - assert (H' : tree_inv (set_session true s)) by (eapply tree_inv_eq; [|exact H]; unfold tree_eq; cbn; tauto).
+    cbv zeta. destruct session_init_readvertises; [eapply tree_inv_eq; [apply tree_eq_advertise | exact H']|].
     eapply tree_inv_eq; [apply same_tree_tree_eq, same_tree_tell_server | exact H'].
   - eapply tree_inv_eq; [|exact H]. unfold tree_eq; cbn; tauto.
   - eapply tree_inv_eq; [|exact H]. unfold tree_eq; cbn; tauto.
@@ -643,6 +646,7 @@ Proof.
   assert (H : base (set_outs [] s0)) by (eapply base_exc_eq; [|exact H0]; unfold base_eq; cbn; tauto).
   unfold step. set (s := set_outs [] s0) in *. destruct e.
   - assert (H' : base (set_session true s)) by (eapply base_exc_eq; [|exact H]; unfold base_eq; cbn; tauto).
+    cbv zeta. destruct session_init_readvertises; [apply base_advertise; exact H'|].
     eapply base_exc_eq; [apply same_tree_base_eq, same_tree_tell_server | exact H'].
   - eapply base_exc_eq; [|exact H]; unfold base_eq; cbn; tauto.
   - eapply base_exc_eq; [|exact H]; unfold base_eq; cbn; tauto.
@@ -760,11 +764,14 @@ Qed.
 Lemma kfr_notify_children : forall s, kfr s (notify_children s).
 Proof. intros. unfold notify_children. destruct (session s); [apply kfr_tell_children | apply kfr_refl]. Qed.
 
+Lemma parent_search_flag_spec : forall b, parent_search_flag (negb b) = b.
+Proof. intros []; reflexivity. Qed.
+
 Lemma K_tell_server : forall s, server_truthful (tell_server s).
 Proof.
   intros s. unfold server_truthful. pose proof (same_tree_tell_server s) as T.
   rewrite (same_tree_position _ _ T). destruct T as (E1 & E2 & _). rewrite E1, E2.
-  unfold tell_server. intros Hs. rewrite Hs. reflexivity.
+  unfold tell_server. intros Hs. rewrite Hs. cbn. rewrite parent_search_flag_spec. reflexivity.
 Qed.
 
 Lemma kfr_finish_close : forall c s, is_parent c s = false -> kfr s (finish_close c s).
@@ -788,7 +795,7 @@ Proof.
       * eapply kfr_K; [|apply K_tell_server]. apply kfr_fields; reflexivity.
       * eapply kfr_K; [|apply K_tell_server]. eapply kfr_trans; [apply kfr_tell_children|].
         apply kfr_finish_close. unfold is_parent.
-        destruct (same_tree_tell_children (0, me) (tell_server (set_parent None s))) as (_ & E1 & _).
+        destruct (same_tree_tell_children (unset_children_level, me) (tell_server (set_parent None s))) as (_ & E1 & _).
         destruct (same_tree_tell_server (set_parent None s)) as (_ & E2 & _). rewrite E1, E2. reflexivity.
     + unfold server_truthful. cbn [session finish_close set_peers set_children] in *. rewrite Hs. discriminate.
   - eapply kfr_K; [apply kfr_finish_close; exact P | exact H].
@@ -855,13 +862,13 @@ Proof.
   { intros c Hc. assert (Ep : parent (run_cont s k) = parent s).
     { destruct k as [|x]; simpl.
       - destruct (same_tree_notify_children s) as (_ & E & _). exact E.
-      - unfold finish_close. cbn. destruct (same_tree_tell_children (0, me) s) as (_ & E & _). exact E. }
+      - unfold finish_close. cbn. destruct (same_tree_tell_children (unset_children_level, me) s) as (_ & E & _). exact E. }
     unfold is_parent. rewrite Ep. apply (Hk c). right; exact Hc. }
   apply IH; [|exact Hk'].
   destruct k as [|x]; simpl.
   - eapply kfr_K; [apply kfr_notify_children | exact H].
   - eapply kfr_K; [|exact H]. eapply kfr_trans; [apply kfr_tell_children|]. apply kfr_finish_close.
-    unfold is_parent. destruct (same_tree_tell_children (0, me) s) as (_ & E & _). rewrite E. apply (Hk x). left; reflexivity.
+    unfold is_parent. destruct (same_tree_tell_children (unset_children_level, me) s) as (_ & E & _). rewrite E. apply (Hk x). left; reflexivity.
 Qed.
 
 Lemma closing_In : forall c s, In (KUnset c) (pend s) -> closing c s = true.
@@ -875,7 +882,7 @@ Proof.
   assert (H : server_truthful (set_outs [] s0)) by (eapply kfr_K; [|exact H0]; apply kfr_fields; reflexivity).
   assert (B : base (set_outs [] s0)) by (eapply base_exc_eq; [|exact B0]; unfold base_eq; cbn; tauto).
   unfold step. set (s := set_outs [] s0) in *. destruct e.
-  - apply K_tell_server.
+  - cbv zeta. destruct session_init_readvertises; [apply K_advertise_any | apply K_tell_server].
   - unfold server_truthful. cbn. discriminate.
   - eapply kfr_K; [|exact H]. apply kfr_fields; reflexivity.
   - eapply kfr_K; [|exact H]. apply kfr_fields; reflexivity.
@@ -957,7 +964,7 @@ Definition tellinv (s : state) : Prop :=
   (pend s = [] -> children_truthful s) /\
   (forall c ks, pend s = ks ++ [KUnset c] -> parent s = None).
 
-Lemma position_no_parent : forall s, parent s = None -> position s = (0, me).
+Lemma position_no_parent : forall s, parent s = None -> position s = (unset_children_level, me).
 Proof. intros s E. unfold position. rewrite E. reflexivity. Qed.
 
 Lemma lookup_cons : forall c v x s, lookup_told x (set_told_child ((c, v) :: told_child s) s)
@@ -1079,10 +1086,10 @@ Proof.
       intros Hn. apply app_eq_nil in Hn. destruct Hn; discriminate.
     + symmetry in Eh. cbn in Eh. specialize (J1 Eh).
       set (s2 := tell_server (set_parent None s)) in *.
-      assert (Pn : parent (tell_children (0, me) s2) = None).
-      { destruct (same_tree_tell_children (0, me) s2) as (_ & E & _). rewrite E, Epar. reflexivity. }
-      assert (TT : tellinv (tell_children (0, me) s2)).
-      { pose proof (same_tree_tell_children (0, me) s2) as T2. pose proof T2 as (_ & _ & _ & _ & _ & _ & _ & _ & Eh2 & Ep2).
+      assert (Pn : parent (tell_children (unset_children_level, me) s2) = None).
+      { destruct (same_tree_tell_children (unset_children_level, me) s2) as (_ & E & _). rewrite E, Epar. reflexivity. }
+      assert (TT : tellinv (tell_children (unset_children_level, me) s2)).
+      { pose proof (same_tree_tell_children (unset_children_level, me) s2) as T2. pose proof T2 as (_ & _ & _ & _ & _ & _ & _ & _ & Eh2 & Ep2).
         assert (Ep' : pend s2 = []) by (rewrite Ep; exact J1).
         unfold tellinv. rewrite Eh2, Ep2, Ep'. split; [reflexivity|]. split.
         - intros _. apply truthful_tell_children. symmetry. apply position_no_parent. rewrite Epar. reflexivity.
@@ -1125,7 +1132,7 @@ Proof.
   cbn [session set_parent]. destruct (session s) eqn:Hs; [|exact Hs].
   destruct (held (tell_server (set_parent None s))).
   - unfold push. cbn. destruct (same_tree_tell_server (set_parent None s)) as (E & _). rewrite E. exact Hs.
-  - unfold finish_close. cbn. destruct (same_tree_tell_children (0, me) (tell_server (set_parent None s))) as (E & _).
+  - unfold finish_close. cbn. destruct (same_tree_tell_children (unset_children_level, me) (tell_server (set_parent None s))) as (E & _).
     destruct (same_tree_tell_server (set_parent None s)) as (E2 & _). rewrite E, E2. exact Hs.
 Qed.
 
@@ -1153,7 +1160,7 @@ Lemma cont_frame : forall k s, session (run_cont s k) = session s /\ pend (run_c
 Proof.
   intros [|c] s; simpl.
   - destruct (same_tree_notify_children s) as (A & B & _ & _ & _ & _ & _ & _ & C & D). tauto.
-  - unfold finish_close. cbn. destruct (same_tree_tell_children (0, me) s) as (A & B & _ & _ & _ & _ & _ & _ & C & D). tauto.
+  - unfold finish_close. cbn. destruct (same_tree_tell_children (unset_children_level, me) s) as (A & B & _ & _ & _ & _ & _ & _ & C & D). tauto.
 Qed.
 
 Lemma fold_cont_frame : forall ks s, session (fold_left run_cont ks s) = session s /\ pend (fold_left run_cont ks s) = pend s /\
@@ -1179,13 +1186,13 @@ Proof.
       unfold tellinv. rewrite Eh, Epd, Mh, Mp. split; [reflexivity|]. split; [|intros c ks' Hk; destruct ks'; discriminate].
       intros _. unfold notify_children. rewrite Ms, Hs. apply truthful_tell_children. reflexivity.
     + assert (Pn : parent m = None) by (rewrite Mpar; apply (J3 c ks); rewrite <- Ek; reflexivity).
-      assert (TT : tellinv (tell_children (0, me) m)).
-      { pose proof (same_tree_tell_children (0, me) m) as T2. pose proof T2 as (_ & _ & _ & _ & _ & _ & _ & _ & Eh2 & Ep2).
+      assert (TT : tellinv (tell_children (unset_children_level, me) m)).
+      { pose proof (same_tree_tell_children (unset_children_level, me) m) as T2. pose proof T2 as (_ & _ & _ & _ & _ & _ & _ & _ & Eh2 & Ep2).
         unfold tellinv. rewrite Eh2, Ep2, Mh, Mp. split; [reflexivity|]. split.
         - intros _. apply truthful_tell_children. symmetry. apply position_no_parent. exact Pn.
         - intros x ks' Hk. destruct ks'; discriminate. }
       eapply jfr_tellinv; [|exact TT]. apply jfr_finish_close. unfold is_parent.
-      destruct (same_tree_tell_children (0, me) m) as (_ & E & _). rewrite E, Pn. reflexivity.
+      destruct (same_tree_tell_children (unset_children_level, me) m) as (_ & E & _). rewrite E, Pn. reflexivity.
 Qed.
 
 Lemma lookup_filter_other : forall c x l, x <> c ->
@@ -1208,6 +1215,8 @@ Proof.
   assert (Hss : session s = session s0) by reflexivity.
   destruct e; simpl in Hc.
   - (* SessionInit *)
+    cbv zeta. destruct session_init_readvertises.
+    { destruct J as (J1 & _ & _). apply tellinv_advertise; [reflexivity | exact J1]. }
     eapply jfr_tellinv; [|exact J]. eapply jfr_trans.
     + apply (jfr_fields s (set_session true s)); try reflexivity; tauto.
     + apply jfr_same_tree; [apply same_tree_tell_server | apply told_child_tell_server].
@@ -1292,8 +1301,169 @@ Qed.
 
 (* F27: a child admitted while logged out is never told the position *)
 Definition f27_witness : list event := [PeerInit 1%nat 1%nat false; SessionInit].
-Lemma children_told_refuted : exists evs, pend (run init evs) = [] /\ ~ children_truthful (run init evs).
+Lemma children_told_refuted : session_init_readvertises = false ->
+  exists evs, pend (run init evs) = [] /\ ~ children_truthful (run init evs).
 Proof.
-  exists f27_witness. split; [reflexivity|]. unfold children_truthful. intros H.
-  specialize (H 1%nat). vm_compute in H. specialize (H (or_introl eq_refl) eq_refl). discriminate.
+  intros R. first [discriminate R |
+    exists f27_witness; split; [reflexivity|]; unfold children_truthful; intros H;
+    specialize (H 1%nat); vm_compute in H; specialize (H (or_introl eq_refl) eq_refl); discriminate ].
+Qed.
+
+(* ------------------------------------------------------------------ the source still has the shape the model was written from *)
+Lemma model_follows_source :
+  set_parent_effects = model_set_parent_effects /\ unset_parent_effects = model_unset_parent_effects /\
+  closed_handler_effects = model_closed_handler_effects /\ session_init_effects = model_session_init_effects /\
+  session_destroyed_effects = model_session_destroyed_effects /\ reset_effects = model_reset_effects /\
+  remove_child_effects = model_remove_child_effects /\
+  server_advert_order = [AF_level; AF_root; AF_search] /\ unset_children_level = 0 /\
+  (forall b, parent_search_flag b = negb b) /\ children_send_independent = true.
+Proof. repeat split; first [reflexivity | intros []; reflexivity]. Qed.
+
+(* ------------------------------------------------------------------ children told: full statement when a new session re-advertises *)
+(* frame of session / held / pend: handlers push only while the server write side is held *)
+Definition sfr (s s' : state) : Prop :=
+  session s' = session s /\ held s' = held s /\ (pend s' = pend s \/ held s = true).
+
+Lemma sfr_refl : forall s, sfr s s.
+Proof. unfold sfr; tauto. Qed.
+Lemma sfr_trans : forall a b c, sfr a b -> sfr b c -> sfr a c.
+Proof.
+  unfold sfr. intros a b c (A1 & A2 & A3) (B1 & B2 & B3). split; [congruence|split; [congruence|]].
+  destruct B3 as [B3|B3]; [|right; congruence]. destruct A3 as [A3|A3]; [left; congruence | right; exact A3].
+Qed.
+Lemma sfr_fields : forall s s', session s' = session s -> held s' = held s -> pend s' = pend s -> sfr s s'.
+Proof. unfold sfr; tauto. Qed.
+Lemma sfr_same_tree : forall s s', same_tree s s' -> sfr s s'.
+Proof. intros s s' (A & _ & _ & _ & _ & _ & _ & _ & B & C). apply sfr_fields; assumption. Qed.
+Lemma sfr_push : forall k s, held s = true -> sfr s (push k s).
+Proof. intros k s H. unfold sfr, push. cbn. tauto. Qed.
+
+Lemma sfr_advertise : forall s, sfr s (advertise s).
+Proof.
+  intros s. destruct (advertise_cases s) as [[_ E]|[(_ & Hh & E)|(_ & _ & E)]]; rewrite E.
+  - apply sfr_refl.
+  - eapply sfr_trans; [apply sfr_same_tree, same_tree_tell_server | apply sfr_push; exact Hh].
+  - apply sfr_same_tree. eapply same_tree_trans; [apply same_tree_tell_server | apply same_tree_notify_children].
+Qed.
+
+Lemma sfr_finish_close : forall c s, sfr s (finish_close c s).
+Proof. intros. apply sfr_fields; reflexivity. Qed.
+
+Lemma sfr_on_closed : forall c s, sfr s (on_closed c s).
+Proof.
+  intros c s. unfold on_closed. destruct (is_parent c s); [|apply sfr_finish_close].
+  assert (S0 : sfr s (set_parent None s)) by (apply sfr_fields; reflexivity).
+  destruct (session (set_parent None s)).
+  - destruct (held (tell_server (set_parent None s))) eqn:Hh.
+    + eapply sfr_trans; [exact S0|]. eapply sfr_trans; [apply sfr_same_tree, same_tree_tell_server | apply sfr_push; exact Hh].
+    + eapply sfr_trans; [exact S0|]. eapply sfr_trans; [apply sfr_same_tree, same_tree_tell_server|].
+      eapply sfr_trans; [apply sfr_same_tree, same_tree_tell_children | apply sfr_finish_close].
+  - eapply sfr_trans; [exact S0 | apply sfr_finish_close].
+Qed.
+
+Lemma sfr_close_peer : forall c s, sfr s (close_peer c s).
+Proof.
+  intros c s. unfold close_peer. destruct (live c s); [|apply sfr_refl].
+  eapply sfr_trans; [|apply sfr_on_closed]. apply sfr_fields; reflexivity.
+Qed.
+
+Lemma sfr_do_set_parent : forall c s, sfr s (do_set_parent c s).
+Proof. intros c s. unfold do_set_parent. eapply sfr_trans; [|apply sfr_advertise]. apply sfr_fields; reflexivity. Qed.
+
+Lemma sfr_after_announce : forall c s, sfr s (after_announce c s).
+Proof.
+  intros c s. unfold after_announce. destruct (is_parent c s).
+  - destruct parent_update_tells_server; [apply sfr_advertise | apply sfr_same_tree, same_tree_notify_children].
+  - destruct (find_peer c s) as [p|]; [|apply sfr_refl]. destruct (complete p); [|apply sfr_refl].
+    destruct (take_as_parent _ _); [apply sfr_do_set_parent | apply sfr_close_peer].
+Qed.
+
+Lemma sfr_fold_on_closed : forall cs s, sfr s (fold_left (fun a c => on_closed c a) cs s).
+Proof. induction cs as [|c cs IH]; intros s; simpl; [apply sfr_refl|]. eapply sfr_trans; [apply sfr_on_closed | apply IH]. Qed.
+
+Lemma sfr_reset : forall s, sfr s (reset s).
+Proof.
+  intros s. unfold reset.
+  match goal with |- sfr _ (match parent ?s2 with _ => _ end) => set (s2' := s2) end.
+  assert (H2 : sfr s s2').
+  { subst s2'. eapply sfr_trans; [|apply sfr_fold_on_closed]. apply sfr_fields; reflexivity. }
+  destruct (parent s2'); [eapply sfr_trans; [exact H2 | apply sfr_close_peer] | exact H2].
+Qed.
+
+Definition plain_event (e : event) : bool :=
+  match e with SessionInit | SessionDestroyed | Hold | Release => false | _ => true end.
+
+Lemma sfr_step : forall s e, plain_event e = true -> sfr s (step s e).
+Proof.
+  intros s0 e P. assert (S0 : sfr s0 (set_outs [] s0)) by (apply sfr_fields; reflexivity).
+  eapply sfr_trans; [exact S0|]. unfold step. set (s := set_outs [] s0). destruct e; try discriminate.
+  - apply sfr_fields; reflexivity.
+  - apply sfr_fields; reflexivity.
+  - unfold on_peer_init. destruct (registered c s || live c s || closing c s); [apply sfr_refl|].
+    match goal with |- sfr _ (if requested then ?s1 else _) => set (s1' := s1) end.
+    assert (S1 : sfr s s1') by (apply sfr_fields; reflexivity).
+    destruct requested; [exact S1|].
+    destruct (check_new_child _ _ _ _); [exact S1 | eapply sfr_trans; [exact S1 | apply sfr_close_peer]|].
+    eapply sfr_trans; [exact S1|]. unfold add_child. destruct (session (set_children (children s1' ++ [c]) s1')); apply sfr_fields; reflexivity.
+  - unfold on_branch_level. destruct (registered c s && live c s); [|apply sfr_refl].
+    eapply sfr_trans; [|apply sfr_after_announce]. apply sfr_fields; reflexivity.
+  - unfold on_branch_root. destruct (negb (live c s)); [apply sfr_refl|]. destruct (find_peer c s) as [p|]; [|apply sfr_refl].
+    assert (U : forall f, sfr s (after_announce c (upd_peer c f s))).
+    { intros f. eapply sfr_trans; [|apply sfr_after_announce]. apply sfr_fields; reflexivity. }
+    destruct (proot p) as [r0|]; [destruct (Nat.eqb r0 r); [apply sfr_refl|]|]; apply U.
+  - apply sfr_close_peer.
+  - apply sfr_fields; reflexivity.
+  - apply sfr_fields; reflexivity.
+  - unfold on_own_stats. destruct (session s); [|apply sfr_refl].
+    repeat match goal with |- sfr _ (if ?b then _ else _) => destruct b end; apply sfr_fields; reflexivity.
+  - apply sfr_reset.
+Qed.
+
+Definition tellinv2 (s : state) : Prop :=
+  (held s = false -> pend s = []) /\
+  (pend s = [] -> children_truthful_in_session s) /\
+  (forall c ks, pend s = ks ++ [KUnset c] -> session s = true -> parent s = None).
+
+Lemma tellinv_to2 : forall s, tellinv s -> tellinv2 s.
+Proof. intros s (A & B & C). split; [exact A|]. split; [intros E _; apply B; exact E | intros c ks E _; apply (C c ks E)]. Qed.
+
+Lemma tellinv2_to : forall s, tellinv2 s -> session s = true -> tellinv s.
+Proof. intros s (A & B & C) Hs. split; [exact A|]. split; [intros E; exact (B E Hs) | intros c ks E; apply (C c ks E Hs)]. Qed.
+
+Lemma tellinv2_no_session : forall s, session s = false -> (held s = false -> pend s = []) -> tellinv2 s.
+Proof.
+  intros s Hs A. split; [exact A|]. split; [intros _ Hs'; congruence | intros c ks _ Hs'; congruence].
+Qed.
+
+Lemma session_present_on : forall s e, session s = true -> session_present s e = true.
+Proof. intros s e Hs. destruct e; cbn; try reflexivity; exact Hs. Qed.
+
+Lemma tellinv2_step : forall s e, session_init_readvertises = true -> tree_inv s -> base s -> tellinv2 s -> tellinv2 (step s e).
+Proof.
+  intros s e R T B J. destruct (session s) eqn:Hs.
+  - apply tellinv_to2. apply tellinv_step; [exact T | exact B | apply tellinv2_to; assumption | apply session_present_on; exact Hs].
+  - destruct J as (J1 & _ & _).
+    destruct (plain_event e) eqn:P.
+    + destruct (sfr_step s e P) as (E1 & E2 & E3). apply tellinv2_no_session; [congruence|].
+      intros Hh. rewrite E2 in Hh. destruct E3 as [E3|E3]; [rewrite E3; apply J1; exact Hh | congruence].
+    + destruct e; try (discriminate P).
+      * (* SessionInit: everything is advertised again *)
+        apply tellinv_to2. unfold step. rewrite R. apply tellinv_advertise; [reflexivity | exact J1].
+      * apply tellinv2_no_session; [reflexivity | exact J1].
+      * apply tellinv2_no_session; [exact Hs | cbn; discriminate].
+      * apply tellinv2_no_session.
+        -- unfold step, release. destruct (fold_cont_frame (pend (set_outs [] s)) (set_pend [] (set_held false (set_outs [] s)))) as (E & _). rewrite E. exact Hs.
+        -- intros _. unfold step, release. destruct (fold_cont_frame (pend (set_outs [] s)) (set_pend [] (set_held false (set_outs [] s)))) as (_ & E & _). rewrite E. reflexivity.
+Qed.
+
+Lemma tellinv2_run : forall evs s, session_init_readvertises = true -> tree_inv s -> base s -> tellinv2 s -> tellinv2 (run s evs).
+Proof.
+  induction evs as [|e evs IH]; intros s R T B J; simpl; [exact J|].
+  apply IH; [exact R | apply tree_inv_step; exact T | apply base_step; exact B | apply tellinv2_step; assumption].
+Qed.
+
+Lemma children_told_full : session_init_readvertises = true ->
+  forall evs, pend (run init evs) = [] -> children_truthful_in_session (run init evs).
+Proof.
+  intros R evs E. destruct (tellinv2_run evs init R tree_inv_init base_init (tellinv_to2 _ tellinv_init)) as (_ & J2 & _). apply J2; exact E.
 Qed.
